@@ -134,8 +134,8 @@ theorem items_class {o : Opts} {cs : List Chunk} {preB postB : List Block} {bc :
     (post.length + 1 + pre.length) (szItems pre + szItems post + K + 1) _ H.ok H.fit hc hfirst hbom H.hToks H.wfPreB H.wfBc H.fresh
     H.wfPostB (fun b hb => List.mem_cons_of_mem _ (List.mem_map.mpr ⟨b, hb, rfl⟩)) List.mem_cons_self
     (by simp only [List.length_append]; omega) ?_
-  intro rest1 s1 w1 f hw1 hf hfol hF1
-  have := hstep hv rest1 s1 w1 f hw1 hf hfol (by simpa [List.append_assoc] using hF1)
+  intro s1 w1 f hw1 hf hF1
+  have := hstep hv _ s1 w1 f hw1 hf (blocks_rest_head postB) (by simpa [List.append_assoc] using hF1)
   simpa [Nat.add_assoc] using this
 
 /-- … when the class theorem leaves what the items `its` denote and no loop is empty: the repaired document has `its` as the body -/
@@ -697,5 +697,150 @@ theorem C12_chars_dup_blockcode (o : Opts) (cs : List Chunk) (pa pb post : List 
   refine ⟨r, ?_, hr⟩
   rw [hc, parse_of_blocks o acceptAll c rest s' _ H.utf hfirst hbom h]
   simp [denote, denoteBlock, denoteElems_append, denoteElems_plain]
+
+
+/-! ### the save-frame classes (Props/C12Lex): any ELEMENTS (items, loops, frames) of the data block before and behind -/
+
+/-- a defect among the elements of a data block -/
+structure ElemHost (o : Opts) (cs : List Chunk) (preB postB : List Block) (bc : Str) (pre post : List Elem) (D : List TokSpec) : Prop
+    extends TextOk o cs, BlocksOk o preB postB bc where
+  hToks : toks cs = blocksToks preB ++ ((.blockHead, bc) :: ((elemsToks pre ++ (D ++ elemsToks post)) ++ blocksToks postB))
+  wfRun : wfElems o pre [] [] = true
+
+theorem ElemHost.fresh' {o : Opts} {cs : List Chunk} {preB postB : List Block} {bc : Str} {pre post : List Elem} {D : List TokSpec}
+    (H : ElemHost o cs preB postB bc pre post D) : ∀ c ∈ denote o.dia o.normKey preB, codeIs o.norm (o.norm bc) c = false := by
+  intro x hx
+  obtain ⟨b, hb, hcb⟩ := denote_code hx
+  simp only [codeIs, hcb, beq_eq_false_iff_ne, ne_eq]
+  exact H.fresh b hb
+
+/-- the common frame of the element-level classes; `hstep`: the statement of the class theorem in the block, with the tokens that
+    really follow the block -/
+theorem elems_class {o : Opts} {cs : List Chunk} {preB postB : List Block} {bc : Str} {pre post : List Elem} {D : List TokSpec}
+    (H : ElemHost o cs preB postB bc pre post D) (fs' : List Container) (ls' : List Loop) (C : Code) (K : Nat)
+    (hK : K ≤ 2 * D.length + 18)
+    (hstep : ∀ (s1 : PS) (w1 : W) (f : Nat), w1.cif = denote o.dia o.normKey preB ++ [.mk bc [] []] →
+        szElems pre + szElems post + K + 1 ≤ f →
+        Feeds o s1 (elemsToks pre ++ (D ++ (elemsToks post ++ (blocksToks postB ++ [(.end_, [])])))) →
+        ∃ s2 r, elemsLoop o (f + post.length + 1 + pre.length) s1 (some [o.norm bc]) true acceptAll w1
+            = elemsLoop o f s2 (some [o.norm bc]) true acceptAll
+                { log := r :: w1.log, cif := denote o.dia o.normKey preB ++ [.mk bc fs' ls'] }
+          ∧ r.code = C ∧ Feeds o s2 (blocksToks postB ++ [(.end_, [])])) :
+    ∃ r, parse o acceptAll [] (renderChunks cs)
+        = { rc := 0, log := [r],
+            cif := denote o.dia o.normKey preB ++ pruneC (.mk bc fs' ls') :: denote o.dia o.normKey postB }
+      ∧ r.code = C := by
+  obtain ⟨c, rest, hc, hfirst, hbom⟩ := H.first
+  have hsz1 := (Lemmas.WriterChunks.szElems_toks pre)
+  have hsz2 := (Lemmas.WriterChunks.szElems_toks post)
+  refine block_defect_chars o H.store H.mfd H.utf cs c rest preB postB bc (elemsToks pre ++ (D ++ elemsToks post)) fs' ls' C
+    (post.length + 1 + pre.length) (szElems pre + szElems post + K + 1) _ H.ok H.fit hc hfirst hbom H.hToks H.wfPreB H.wfBc H.fresh
+    H.wfPostB (fun b hb => List.mem_cons_of_mem _ (List.mem_map.mpr ⟨b, hb, rfl⟩)) List.mem_cons_self
+    (by simp only [List.length_append]; omega) ?_
+  intro s1 w1 f hw1 hf hF1
+  have := hstep s1 w1 f hw1 hf (by simpa [List.append_assoc] using hF1)
+  simpa [Nat.add_assoc] using this
+
+/-- … when the class theorem leaves what the elements `es` denote and no loop of the block is empty -/
+theorem elems_class_doc {o : Opts} {cs : List Chunk} {preB postB : List Block} {bc : Str} {pre post : List Elem} {D : List TokSpec}
+    (H : ElemHost o cs preB postB bc pre post D) (es : List Elem) (C : Code) (K : Nat) (hK : K ≤ 2 * D.length + 18)
+    (hpk : allPacked (denoteElems o.dia o.normKey es [] []).2)
+    (hstep : ∀ (s1 : PS) (w1 : W) (f : Nat), w1.cif = denote o.dia o.normKey preB ++ [.mk bc [] []] →
+        szElems pre + szElems post + K + 1 ≤ f →
+        Feeds o s1 (elemsToks pre ++ (D ++ (elemsToks post ++ (blocksToks postB ++ [(.end_, [])])))) →
+        ∃ s2 r, elemsLoop o (f + post.length + 1 + pre.length) s1 (some [o.norm bc]) true acceptAll w1
+            = elemsLoop o f s2 (some [o.norm bc]) true acceptAll
+                { log := r :: w1.log,
+                  cif := denote o.dia o.normKey preB ++ [.mk bc (denoteElems o.dia o.normKey es [] []).1 (denoteElems o.dia o.normKey es [] []).2] }
+          ∧ r.code = C ∧ Feeds o s2 (blocksToks postB ++ [(.end_, [])])) :
+    OneReport o cs C (preB ++ [{ code := bc, body := es }] ++ postB) := by
+  obtain ⟨r, h, hr⟩ := elems_class H _ _ C K hK hstep
+  exact ⟨r, by rw [h, pruneC_packed _ _ _ hpk]; simp [denote, denoteBlock], hr⟩
+
+/-- loops of the block around a frame: none is empty -/
+theorem allPacked_around (o : Opts) (pre post : List Elem) (fc : Str) (body : List Item) (seen2 fseen2 : List Str)
+    (hpre : wfElems o pre [] [] = true) (hpost : wfElems o post seen2 fseen2 = true) :
+    allPacked (denoteElems o.dia o.normKey (pre ++ [.frame fc body] ++ post) [] []).2 := by
+  rw [denoteElems_append, denoteElems_append]
+  refine allPacked_denoteElems o post seen2 fseen2 _ _ hpost ?_
+  simp only [denoteElems]
+  exact allPacked_denoteElems o pre [] [] [] [] hpre (by intro l hl; cases hl)
+
+/-- **C12_chars_invalid_framecode** — a save frame whose code is not a valid frame code.  One report, CIF_INVALID_FRAMECODE; the
+    content is that of the document as it stands (the code is used anyway). -/
+theorem C12_chars_invalid_framecode (o : Opts) (cs : List Chunk) (preB postB : List Block) (bc : Str) (pre post : List Elem)
+    (fc : Str) (body : List Item) (seen2 fseen2 : List Str)
+    (H : ElemHost o cs preB postB bc pre post ((.frameHead, fc) :: (itemsToks body ++ [(.frameTerm, [])])))
+    (hn0 : noNul fc = true) (hinv : isValidName false fc = false)
+    (hnew : ∀ c ∈ (denoteElems o.dia o.normKey pre [] []).1, codeIs o.norm (o.norm fc) c = false)
+    (hwb : wfItems o body [] = true) (hpost : wfElems o post seen2 fseen2 = true)
+    (hseen2 : ∀ k ∈ normNames o (denoteElems o.dia o.normKey (pre ++ [.frame fc body]) [] []).2, k ∈ seen2)
+    (hfseen2 : ∀ c ∈ (denoteElems o.dia o.normKey (pre ++ [.frame fc body]) [] []).1, o.norm c.code ∈ fseen2) :
+    OneReport o cs CIF_INVALID_FRAMECODE (preB ++ [{ code := bc, body := pre ++ [.frame fc body] ++ post }] ++ postB) := by
+  have h4 := Lemmas.WriterChunks.szItems_toks body
+  refine elems_class_doc H _ CIF_INVALID_FRAMECODE (szItems body + body.length + 3)
+    (by simp only [List.length_cons, List.length_append, List.length_nil]; omega)
+    (allPacked_around o pre post fc body seen2 fseen2 H.wfRun hpost) ?_
+  intro s1 w1 f hw1 hf hF1
+  exact C12_invalid_framecode o _ bc H.fresh' H.mfd pre post fc body [] [] seen2 fseen2 _ s1 f w1 [] [] hw1 H.wfRun (nil_seen o)
+    (by intro c hc; cases hc) hn0 hinv hnew hwb hpost hseen2 hfseen2 (by omega) (blockFollow_term (blocks_rest_head postB)) hF1
+
+
+/-- **C12_chars_eof_in_frame** — the input ends inside a save frame (the last construct of the last block).  One report,
+    CIF_EOF_IN_FRAME; the content is that of the document with the frame terminated. -/
+theorem C12_chars_eof_in_frame (o : Opts) (cs : List Chunk) (preB : List Block) (bc : Str) (pre : List Elem)
+    (fc : Str) (body : List Item) (H : ElemHost o cs preB [] bc pre [] ((.frameHead, fc) :: itemsToks body))
+    (hcode : wfCode fc = true) (hnew : ∀ c ∈ (denoteElems o.dia o.normKey pre [] []).1, codeIs o.norm (o.norm fc) c = false)
+    (hwb : wfItems o body [] = true) :
+    OneReport o cs CIF_EOF_IN_FRAME (preB ++ [{ code := bc, body := pre ++ [.frame fc body] }] ++ []) := by
+  have h4 := Lemmas.WriterChunks.szItems_toks body
+  have hpk := allPacked_around o pre [] fc body [] [] H.wfRun rfl
+  rw [List.append_nil] at hpk
+  refine elems_class_doc H _ CIF_EOF_IN_FRAME (szItems body + body.length + 3)
+    (by simp only [List.length_cons]; omega) hpk ?_
+  intro s1 w1 f hw1 hf hF1
+  have := C12_eof_in_frame o _ bc H.fresh' H.mfd pre fc body [] [] [] [] s1 f w1 [] [] hw1 H.wfRun (nil_seen o)
+    (by intro c hc; cases hc) hcode hnew hwb (by simp only [szElems] at hf; omega) (by simpa [elemsToks, blocksToks] using hF1)
+  simpa [blocksToks] using this
+
+/-- **C12_chars_no_frame_term** — a data block header inside a save frame (the last construct of its block).  One report,
+    CIF_NO_FRAME_TERM; the content is that of the document with the frame terminated in front of the header. -/
+theorem C12_chars_no_frame_term (o : Opts) (cs : List Chunk) (preB postB : List Block) (b : Block) (bc : Str) (pre : List Elem)
+    (fc : Str) (body : List Item) (H : ElemHost o cs preB (b :: postB) bc pre [] ((.frameHead, fc) :: itemsToks body))
+    (hcode : wfCode fc = true) (hnew : ∀ c ∈ (denoteElems o.dia o.normKey pre [] []).1, codeIs o.norm (o.norm fc) c = false)
+    (hwb : wfItems o body [] = true) :
+    OneReport o cs CIF_NO_FRAME_TERM (preB ++ [{ code := bc, body := pre ++ [.frame fc body] }] ++ b :: postB) := by
+  have h4 := Lemmas.WriterChunks.szItems_toks body
+  have hpk := allPacked_around o pre [] fc body [] [] H.wfRun rfl
+  rw [List.append_nil] at hpk
+  refine elems_class_doc H _ CIF_NO_FRAME_TERM (szItems body + body.length + 3)
+    (by simp only [List.length_cons]; omega) hpk ?_
+  intro s1 w1 f hw1 hf hF1
+  have := C12_no_frame_term o _ bc H.fresh' H.mfd pre fc body [] [] b.code (elemsToks b.body ++ (blocksToks postB ++ [(.end_, [])]))
+    s1 f w1 [] [] hw1 H.wfRun (nil_seen o)
+    (by intro c hc; cases hc) hcode hnew hwb (by simp only [szElems] at hf; omega) (by simpa [elemsToks, blocksToks] using hF1)
+  simpa [blocksToks] using this
+
+/-- **C12_chars_frame_nesting_depth** — a frame header inside a save frame while frames do not nest (`max_frame_depth = 1`).  One
+    report, CIF_NO_FRAME_TERM; the content is that of the document with the first frame terminated in front of the second, which
+    becomes its sibling. -/
+theorem C12_chars_frame_nesting_depth (o : Opts) (cs : List Chunk) (preB postB : List Block) (bc : Str) (pre post : List Elem)
+    (fc fc2 : Str) (body body2 : List Item) (seen2 fseen2 : List Str) (hmfd : o.maxFrameDepth = 1)
+    (H : ElemHost o cs preB postB bc pre (.frame fc2 body2 :: post) ((.frameHead, fc) :: itemsToks body))
+    (hcode : wfCode fc = true) (hnew : ∀ c ∈ (denoteElems o.dia o.normKey pre [] []).1, codeIs o.norm (o.norm fc) c = false)
+    (hwb : wfItems o body [] = true) (hpost : wfElems o (.frame fc2 body2 :: post) seen2 fseen2 = true)
+    (hseen2 : ∀ k ∈ normNames o (denoteElems o.dia o.normKey (pre ++ [.frame fc body]) [] []).2, k ∈ seen2)
+    (hfseen2 : ∀ c ∈ (denoteElems o.dia o.normKey (pre ++ [.frame fc body]) [] []).1, o.norm c.code ∈ fseen2) :
+    OneReport o cs CIF_NO_FRAME_TERM
+      (preB ++ [{ code := bc, body := pre ++ [.frame fc body] ++ .frame fc2 body2 :: post }] ++ postB) := by
+  have h4 := Lemmas.WriterChunks.szItems_toks body
+  refine elems_class_doc H _ CIF_NO_FRAME_TERM (szItems body + body.length + 3)
+    (by simp only [List.length_cons]; omega)
+    (allPacked_around o pre _ fc body seen2 fseen2 H.wfRun hpost) ?_
+  intro s1 w1 f hw1 hf hF1
+  have := C12_frame_nesting_depth o _ bc H.fresh' hmfd pre post fc fc2 body body2 [] [] seen2 fseen2 _ s1 f w1 [] [] hw1 H.wfRun
+    (nil_seen o) (by intro c hc; cases hc) hcode hnew hwb hpost hseen2 hfseen2 (by omega)
+    (blockFollow_term (blocks_rest_head postB)) hF1
+  simpa using this
 
 end CifModel.Props
